@@ -5,11 +5,11 @@ CONSTANTS
   MaxOps = 2
   MaxIno = 10
   Cfg <- MC_Cfg_ifh
-  TaintOn = TRUE
+  AsFound <- MC_AF_none
   Mode = "c05"
   InitS <- MC_S_plain
   ScenCfg <- MC_Scen_ifh
   ScenTree <- MC_Tree_plain
 VIEW View
-INVARIANTS TreeOK MirrorOK NameGateOK Report
+INVARIANTS TreeOK HandlesOK MirrorOK NameGateOK Report
 CHECK_DEADLOCK FALSE
